@@ -115,6 +115,14 @@ impl Obs {
     pub fn items(&self) -> &[i64] {
         &self.a[..self.n.min(48)]
     }
+    /// order-sensitive digest of everything logged (used for callback argument sequences)
+    pub fn digest(&self) -> i64 {
+        let mut h: u64 = 0xcbf29ce484222325 ^ self.n as u64;
+        for x in self.items() {
+            h = (h ^ *x as u64).wrapping_mul(0x100000001b3);
+        }
+        (h >> 8) as i64
+    }
 }
 
 pub struct Labels {
@@ -195,6 +203,8 @@ pub fn pred(p: u8, call: usize, val: u8) -> bool {
 }
 
 pub trait VecLike<E: Elem>: Sized {
+    /// a new container in this arena (the std reference ignores the arena)
+    fn new_in_arena(b: &'static Bump, cap: usize) -> Self;
     fn fresh(&self) -> Self;
     fn with_cap(&self, n: usize) -> Self;
     fn from_iter_like(&self, it: Src<E>, how: u8) -> Self;
@@ -245,8 +255,11 @@ pub trait VecLike<E: Elem>: Sized {
 }
 
 macro_rules! impl_veclike {
-    ($ty:ty, $fresh:expr, $withcap:expr, $fromiter:expr, $macro:expr, $drainfilter:ident, $leak:expr, $boxed:expr, $tryres:expr, $tryresx:expr, $copy:ident, $copies:expr, $write:expr) => {
+    ($ty:ty, $newin:expr, $fresh:expr, $withcap:expr, $fromiter:expr, $macro:expr, $drainfilter:ident, $leak:expr, $boxed:expr, $tryres:expr, $tryresx:expr, $copy:ident, $copies:expr, $write:expr) => {
         impl<E: Elem> VecLike<E> for $ty {
+            fn new_in_arena(b: &'static Bump, cap: usize) -> Self {
+                $newin(b, cap)
+            }
             fn fresh(&self) -> Self {
                 $fresh(self)
             }
@@ -474,6 +487,7 @@ fn b_bump<E>(v: &BVec<'static, E>) -> &'static Bump {
 
 impl_veclike!(
     BVec<'static, E>,
+    |b: &'static Bump, cap: usize| if cap == 0 { BVec::new_in(b) } else { BVec::with_capacity_in(cap, b) },
     |s: &BVec<'static, E>| BVec::new_in(b_bump(s)),
     |s: &BVec<'static, E>, n: usize| BVec::with_capacity_in(n, b_bump(s)),
     |s: &BVec<'static, E>, it: Src<E>, how: u8| {
@@ -527,6 +541,7 @@ impl_veclike!(
 
 impl_veclike!(
     Vec<E>,
+    |_b: &'static Bump, cap: usize| if cap == 0 { Vec::new() } else { Vec::with_capacity(cap) },
     |_s: &Vec<E>| Vec::new(),
     |_s: &Vec<E>, n: usize| Vec::with_capacity(n),
     |_s: &Vec<E>, it: Src<E>, _how: u8| it.collect::<Vec<E>>(),
@@ -563,4 +578,107 @@ impl_veclike!(
         let s8: &mut Vec<u8> = unsafe { &mut *(s as *mut Vec<E> as *mut Vec<u8>) };
         Some(if all { s8.write_all(data).map(|_| data.len() as i64).unwrap_or(-1) } else { let r = s8.write(data).map(|n| n as i64).unwrap_or(-1); s8.flush().ok(); r })
     }
+);
+
+// ---- allocator_api2's Vec parameterised by the arena (C12: "standard collections parameterised by
+// the arena behave exactly as with the global allocator")
+pub type AVec<E> = allocator_api2::vec::Vec<E, &'static Bump>;
+
+macro_rules! a_drain_filter {
+    ($v:expr, $f:expr) => {{
+        // allocator_api2's Vec has no drain_filter/extract_if: the model never enables this action for it
+        let _ = &$f;
+        let r: std::vec::IntoIter<E> = unreachable!("drain_filter is not part of allocator_api2::vec::Vec");
+        #[allow(unreachable_code)]
+        r
+    }};
+}
+
+impl_veclike!(
+    AVec<E>,
+    |b: &'static Bump, cap: usize| if cap == 0 { allocator_api2::vec::Vec::new_in(b) } else { allocator_api2::vec::Vec::with_capacity_in(cap, b) },
+    |s: &AVec<E>| allocator_api2::vec::Vec::new_in(*s.allocator()),
+    |s: &AVec<E>, n: usize| allocator_api2::vec::Vec::with_capacity_in(n, *s.allocator()),
+    |s: &AVec<E>, it: Src<E>, _how: u8| {
+        let mut v = allocator_api2::vec::Vec::new_in(*s.allocator());
+        v.extend(it);
+        v
+    },
+    |s: &AVec<E>, items: Vec<E>| {
+        let mut v = allocator_api2::vec::Vec::new_in(*s.allocator());
+        let it = {
+            let _g = Callback::enter();
+            items.into_iter()
+        };
+        let mut it = std::mem::ManuallyDrop::new(it);
+        while let Some(x) = it.next() {
+            v.push(x);
+        }
+        let _g = Callback::enter();
+        unsafe { std::mem::ManuallyDrop::drop(&mut it) };
+        v
+    },
+    a_drain_filter,
+    |s: AVec<E>, _mutable: bool| -> &'static [E] { s.leak() },
+    |s: AVec<E>, obs: &mut Obs| {
+        let b = s.into_boxed_slice();
+        obs.n(b.len() as i64);
+        for e in b.iter() {
+            obs.el(e);
+        }
+        drop(b);
+    },
+    |s: &mut AVec<E>, n: usize| s.try_reserve(n).is_ok(),
+    |s: &mut AVec<E>, n: usize| s.try_reserve_exact(n).is_ok(),
+    extend_from_slice,
+    |s: &mut AVec<E>, a: &[E], b: &[E]| {
+        let total = a.len().checked_add(b.len()).expect("capacity overflow");
+        s.reserve(total);
+        s.extend_from_slice(a);
+        s.extend_from_slice(b);
+    },
+    |_s: &mut AVec<E>, _data: &[u8], _all: bool| -> Option<i64> { None }
+);
+
+/// The same collection type with the global allocator: the reference for AVec ("behaves exactly as
+/// with the global allocator").
+pub type GVec<E> = allocator_api2::vec::Vec<E, allocator_api2::alloc::Global>;
+
+impl_veclike!(
+    GVec<E>,
+    |_b: &'static Bump, cap: usize| if cap == 0 { allocator_api2::vec::Vec::new() } else { allocator_api2::vec::Vec::with_capacity(cap) },
+    |_s: &GVec<E>| allocator_api2::vec::Vec::new(),
+    |_s: &GVec<E>, n: usize| allocator_api2::vec::Vec::with_capacity(n),
+    |_s: &GVec<E>, it: Src<E>, _how: u8| {
+        let mut v = allocator_api2::vec::Vec::new();
+        v.extend(it);
+        v
+    },
+    |_s: &GVec<E>, items: Vec<E>| {
+        let mut v = allocator_api2::vec::Vec::new();
+        for x in items {
+            v.push(x);
+        }
+        v
+    },
+    a_drain_filter,
+    |s: GVec<E>, _mutable: bool| -> &'static [E] { s.leak() },
+    |s: GVec<E>, obs: &mut Obs| {
+        let b = s.into_boxed_slice();
+        obs.n(b.len() as i64);
+        for e in b.iter() {
+            obs.el(e);
+        }
+        drop(b);
+    },
+    |s: &mut GVec<E>, n: usize| s.try_reserve(n).is_ok(),
+    |s: &mut GVec<E>, n: usize| s.try_reserve_exact(n).is_ok(),
+    extend_from_slice,
+    |s: &mut GVec<E>, a: &[E], b: &[E]| {
+        let total = a.len().checked_add(b.len()).expect("capacity overflow");
+        s.reserve(total);
+        s.extend_from_slice(a);
+        s.extend_from_slice(b);
+    },
+    |_s: &mut GVec<E>, _data: &[u8], _all: bool| -> Option<i64> { None }
 );
